@@ -50,6 +50,10 @@ MUTANTS = [
   "                hunk.remove.content.push(line);\n                header.remove_count -= 1;\n\n                there_was_a_non_context_line = true;", ["C01.hunk_wf"], ["C11"]),
  ("parser", "src/libpatch/patch/unified/parser.rs", "        if count == 0 {\n            line as isize\n        } else {", "        if false {\n            line as isize\n        } else {", ["C01.start_lines"], ["C11"]),
  ("parser", "src/libpatch/patch/unified/parser.rs", "hunk.add.content.reserve(std::cmp::min(header.add_count, input.len()));", "hunk.add.content.reserve(header.add_count);", ["parse_hunk.body"], []),
+ # token parsers (verified bodies since the fourth seed round)
+ ("parser", "src/libpatch/patch/unified/parser.rs", "    if digits.len() != 6 { // This is what patch requires", "    if digits.len() > 6 { // This is what patch requires", ["C11.tokens"], []),
+ ("parser", "src/libpatch/patch/unified/parser.rs", "            => Err(ErrorBuilder::BadHash(input)),\n        (name, rest)\n            => Ok((rest, name)),",
+  "            => Err(ErrorBuilder::BadHash(input)),\n        (name, rest)\n            => Ok((name, rest)),", ["C11.tokens"], []),
  # parse_number_usize (verified body since the fourth seed round): an over-long number must be an error, not a panic
  ("parser", "src/libpatch/patch/unified/parser.rs",
   "    match usize::from_str(str) {\n        Ok(number) => Ok((input_, number)),\n        Err(_) => Err(ErrorBuilder::NumberTooBig(digits)),\n    }",
